@@ -71,3 +71,19 @@ Definition tmodel_out (c : tcase) :=
   | inl e => (inl e, None)
   | inr s => (inr s, Some (into_tableau s))
   end.
+
+(* the premises of the two C13 transfer theorems on the implementation's own output: lin_okb of the input and pairwise
+   distinct column names of the implementation's standard form (3 = a premise is not met; not a failure by itself) *)
+Fixpoint nodupb (l : list string) : bool :=
+  match l with [] => true | x :: r => negb (existsb (String.eqb x) r) && nodupb r end.
+Definition premises_code (c : tcase) : Z :=
+  match tc_std c with
+  | inr s2 => if lin_okb (tc_model c) && nodupb (sm_vars s2) then 0 else 3
+  | inl _ => 0
+  end%Z.
+Fixpoint pcodes_from (i : Z) (l : list tcase) : list Z :=
+  match l with
+  | [] => []
+  | c :: cs => if Z.eqb (premises_code c) 3 then i :: pcodes_from (i + 1)%Z cs else pcodes_from (i + 1)%Z cs
+  end.
+Definition tpremises_unmet (l : list tcase) : list Z := pcodes_from 0%Z l.
